@@ -13,7 +13,7 @@ import ast
 from .. import facts
 from .. import terms as T
 from ..core import AnalysisError
-from ..model import FuncRef, NotConst
+from ..model import FuncRef, NotConst, dotted
 from . import register
 from .schema import (r_schema, r_fields, r_composite, r_gate, r_hdr_current, r_setcur, current_version, SCHEMA_CLASSES,
                      r_defassign)
@@ -262,7 +262,6 @@ def check_c01(model, rep, tier):
     r_uid_format(model, rep)
     r_paths(model, rep)
     r_io_chain(model, rep)
-    r_defassign(model, rep, ["composeinfo"])
     rep.floor("R-SCHEMA", 60)
 
 
@@ -346,6 +345,42 @@ def r_cells(model, rep):
            msg="" if not bad else "%s inside the image loops (line %s)" % (bad[0].kind, bad[0].lineno))
 
 
+MANIFEST_STATE = {
+    "images.Images": {"header", "compose", "images"},
+    "rpms.Rpms": {"header", "compose", "rpms"},
+    "modules.Modules": {"header", "compose", "modules"},
+    "extra_files.ExtraFiles": {"header", "compose", "extra_files"},
+}
+
+
+def r_no_hidden_state(model, rep, classes):
+    """the public mapping is the whole state of a manifest object: no other instance attribute is ever assigned (a cache or
+    index that shadows part of the table goes stale when the table is replaced on load or edited through __delitem__)"""
+    for q in classes:
+        cls = model.cls(q)
+        assigned = {}
+        for name, fn in cls.methods.items():
+            if not fn.args.args:
+                continue
+            selfname = fn.args.args[0].arg
+            for node in ast.walk(fn):
+                targets = []
+                if isinstance(node, ast.Assign):
+                    targets = node.targets
+                elif isinstance(node, (ast.AugAssign, ast.AnnAssign)):
+                    targets = [node.target]
+                for t in targets:
+                    for tt in ast.walk(t):
+                        if isinstance(tt, ast.Attribute) and isinstance(tt.value, ast.Name) and tt.value.id == selfname and isinstance(tt.ctx, ast.Store):
+                            assigned.setdefault(tt.attr, "%s (line %s)" % (name, node.lineno))
+                if isinstance(node, ast.Call) and dotted(node.func) == "setattr" and node.args and isinstance(node.args[0], ast.Name) and node.args[0].id == selfname:
+                    assigned.setdefault("<setattr>", "%s (line %s)" % (name, node.lineno))
+        extra = sorted(set(assigned) - MANIFEST_STATE[q])
+        rep.ob("R-NO-HIDDEN-STATE", q, not extra, site=cls.module.site(cls.node),
+               msg="" if not extra else "%s keeps state besides %s: %s" % (q, sorted(MANIFEST_STATE[q]), ", ".join("%s assigned in %s" % (a, assigned[a]) for a in extra)),
+               facts={"attributes": sorted(assigned)})
+
+
 @register("C02")
 def check_c02(model, rep, tier):
     rep.explanation = (
@@ -363,8 +398,8 @@ def check_c02(model, rep, tier):
         r_schema(model, rep, q, FLOORS[q])
     r_composite(model, rep, "images.Images", ["header", "compose"])
     r_cells(model, rep)
+    r_no_hidden_state(model, rep, ["images.Images"])
     r_io_chain(model, rep)
-    r_defassign(model, rep, ["images"])
 
 
 # ---------------------------------------------------------------------------------------------------------
@@ -445,8 +480,8 @@ def check_c03(model, rep, tier):
         r_composite(model, rep, q, ["header", "compose"])
     for q in ("common.Header", "composeinfo.Compose"):
         r_schema(model, rep, q, FLOORS[q])
+    r_no_hidden_state(model, rep, ["rpms.Rpms", "modules.Modules", "extra_files.ExtraFiles"])
     r_io_chain(model, rep)
-    r_defassign(model, rep, ["rpms", "modules", "extra_files"])
 
 
 # ---------------------------------------------------------------------------------------------------------
@@ -872,7 +907,6 @@ def check_c04(model, rep, tier):
     r_cks_reader(model, rep, rule_id="R-CKS-FORMAT", format_only=True)
     r_parser_symmetry(model, rep)
     r_discinfo_pos(model, rep)
-    r_defassign(model, rep, ["treeinfo", "discinfo"])
     rep.floor("R-SCHEMA", 50)
 
 
